@@ -1018,10 +1018,23 @@ pub fn gen_aiger(rng: &mut Rng, binary: bool, lt: u8, size: usize) -> AigerDoc {
             let y = rng.below(x + 1);
             let (x, y) = match rng.below(8) {
                 6 | 7 => {
-                    // deltas of every 7-bit length
+                    // deltas of every 7-bit length, with weight on the 7-bit group boundaries
+                    // (2^(7k)-1, 2^(7k), 2^(7k)+1) and on 0
                     let bits = 64 - out.leading_zeros() as u64;
-                    let x = out - (1u64 << rng.below(bits)).min(out);
-                    let y = x - (1u64 << rng.below(64)).min(x);
+                    let mut delta = |rng: &mut Rng, max: u64| -> u64 {
+                        let d = match rng.below(4) {
+                            0 => 1u64 << rng.below(bits.max(1)),
+                            1 => 0,
+                            _ => {
+                                let k = 7 * (1 + rng.below(9));
+                                (1u64 << k.min(63)).wrapping_add(rng.below(3)).wrapping_sub(1)
+                            }
+                        };
+                        d.min(max)
+                    };
+                    let d0 = delta(rng, out).max(1);
+                    let x = out - d0;
+                    let y = x - delta(rng, x);
                     (x, y)
                 }
                 0 => (out - 1, out - 1),
